@@ -386,6 +386,13 @@ def enumerate_cases(tier):
             for obs in ("p1", "pin", "p2"):
                 for field in ("B", "J"):
                     cases.append({"part": "compose", "srcs": [[k, 1] for k in ks], "obs": obs, "field": field})
+    # Polyline-only lists up to length 4: vertex sets of equal and unequal length with different currents in one group
+    for n in (2, 3, 4):
+        for ks in itertools.product(["pol2", "pol3", "pol3b", "pol5"], repeat=n):
+            for obs, field in (("p2", "B"), ("p1", "H")):
+                if n == 4 and obs == "p1":
+                    continue
+                cases.append({"part": "compose", "srcs": [[k, 1 if i % 2 == 0 or n == 4 else 2] for i, k in enumerate(ks)], "obs": obs, "field": field})
     # duplicates given as the very same object
     for k in ("cub", "meshC", "pol3"):
         for pl in (1, 3):
